@@ -68,7 +68,7 @@ theorem hasKey_altairRow (d : Dict) (l : Loc) {k : Key} (hx : k ≠ "x") (hy : k
 
 /-- the chart of a supported space: the rows, and the facts read off the first of them -/
 theorem altairChart_eq {sp : Space} {heap : Heap} {p : Portrayal} {rows : List Dict}
-    (h : altairRows sp heap p = .ok rows) :
+    (h : altairRows sp heap p = .ok rows) (hpos : min sp.w sp.h ≠ 0) :
     altairChart sp heap p = .ok
       { rows, xyType := if sp.fam = .cs then "nominal" else "ordinal",
         tooltip := (Dict.keys (firstRow rows)).filter fun k => !invalidTooltips.contains k,
@@ -77,6 +77,15 @@ theorem altairChart_eq {sp : Space} {heap : Heap} {p : Portrayal} {rows : List D
           else some ⟨30000, (min sp.w sp.h) * (min sp.w sp.h)⟩ } := by
   unfold altairChart
   rw [h]
+  simp [hpos]
+
+/-- a supported space of width or height 0 (it holds no agent, so no size comes from the rows): ZeroDivisionError -/
+theorem altairChart_zero {sp : Space} {heap : Heap} {p : Portrayal}
+    (h : altairRows sp heap p = .ok []) (hz : min sp.w sp.h = 0) :
+    altairChart sp heap p = .error .zeroDivision := by
+  unfold altairChart
+  rw [h]
+  simp [firstRow, Dict.hasKey, hz]
 
 /-- the first row of the rows of a list of located agents is the row of the first agent -/
 theorem firstRow_filterMap (heap : Heap) (p : Portrayal) (a : Agent) (rest : List Agent) {l : Loc}
